@@ -79,6 +79,10 @@ pub enum Rec {
     Bytes(Vec<u8>),
     Error { display: String, debug: String, chain: Vec<String> },
     Debug(String),
+    /// `record_debug` value seen / expected under two format specs: `{:?}` and `{:>14?}` (a
+    /// value recorded with the display sigil must hand the visitor's formatter flags on to the
+    /// value's `Display` impl, one recorded with `?` to its `Debug` impl)
+    Debug2 { plain: String, padded: String },
 }
 impl Rec {
     pub fn f64(x: f64) -> Rec {
@@ -95,7 +99,7 @@ impl Rec {
             Rec::Str(_) => "record_str",
             Rec::Bytes(_) => "record_bytes",
             Rec::Error { .. } => "record_error",
-            Rec::Debug(_) => "record_debug",
+            Rec::Debug(_) | Rec::Debug2 { .. } => "record_debug",
         }
     }
     /// exact equality; two NaNs are equal whatever their payload (a widening conversion
@@ -118,6 +122,8 @@ impl Rec {
                 Rec::Error { display: x, debug: y, chain: z },
             ) => a == x && b == y && c == z,
             (Rec::Debug(a), Rec::Debug(b)) => a == b,
+            (Rec::Debug(a), Rec::Debug2 { plain, .. }) | (Rec::Debug2 { plain, .. }, Rec::Debug(a)) => a == plain,
+            (Rec::Debug2 { plain: a, padded: pa }, Rec::Debug2 { plain: b, padded: pb }) => a == b && pa == pb,
             _ => false,
         }
     }
@@ -135,6 +141,7 @@ impl Rec {
                 json!({"display": clip(display), "debug": clip(debug), "source_chain": chain.iter().map(|s| clip(s)).collect::<Vec<_>>()})
             }
             Rec::Debug(s) => json!(clip(s)),
+            Rec::Debug2 { plain, padded } => json!({"{:?}": clip(plain), "{:>14?}": clip(padded)}),
         };
         json!({ self.method(): v })
     }
@@ -241,7 +248,7 @@ impl Visit for TypedVisitor {
         );
     }
     fn record_debug(&mut self, f: &Field, v: &dyn fmt::Debug) {
-        self.push(f, Rec::Debug(format!("{v:?}")));
+        self.push(f, Rec::Debug2 { plain: format!("{v:?}"), padded: format!("{v:>14?}") });
     }
 }
 
